@@ -69,9 +69,14 @@ func (f faultyReaderAt) ReadAt(p []byte, off int64) (int, error) {
 		if os.Getenv("VERIF_DEBUG") != "" {
 			println("fault ReadAt len", len(p), "off", off)
 		}
-		if f.log.kind == "eof" {
-			// the file became shorter than it was when it was parsed: a short count with io.EOF
-			n, _ := f.inner.ReadAt(p[:len(p)/2], off)
+		switch f.log.kind {
+		case "eof", "eof1", "eof0":
+			// the file became shorter than it was when it was parsed: a short count (half / all but one byte / nothing) with io.EOF
+			cut := map[string]int{"eof": len(p) / 2, "eof1": len(p) - 1, "eof0": 0}[f.log.kind]
+			if cut < 0 {
+				cut = 0
+			}
+			n, _ := f.inner.ReadAt(p[:cut], off)
 			return n, io.EOF
 		}
 		return 0, errInjected
@@ -97,6 +102,15 @@ func faultImage(which string) []byte {
 		if err == nil {
 			return b
 		}
+	case "hello", "hello-signed":
+		// a real 53 KiB image: the 32 KiB reads of a hash run span several of its regions
+		b, err := os.ReadFile(os.Getenv("VERIF_REPO") + "/tests/data/binary/HelloWorld.efi" + map[string]string{"hello": "", "hello-signed": ".signed"}[which])
+		if err == nil {
+			return b
+		}
+	case "large":
+		// synthetic image with sections beyond 32 KiB in reversed file order
+		return buildPE(peLayout{bits: 64, lfanew: 64, secs: []peSec{{33000, 2}, {40000, 1}, {13, 3}}, slack: 8, gappos: 1, trail: 3}, "faults-large").b
 	}
 	l := peLayout{bits: 64, lfanew: 64, secs: []peSec{{13, 2}, {16, 1}}, slack: 8, gappos: 1, trail: 3}
 	img := buildPE(l, "faults").b
@@ -283,8 +297,8 @@ func runFaults(sc M) {
 				return err
 			case "verifyimage":
 				c2 := testCert("k2", "i2", "s2")
-				if str(sc, "variant") == "fixture-signed" {
-					pb, _ := os.ReadFile(os.Getenv("VERIF_REPO") + "/authenticode/testdata/db.pem")
+				if str(sc, "variant") == "fixture-signed" || str(sc, "variant") == "hello-signed" {
+					pb, _ := os.ReadFile(os.Getenv("VERIF_REPO") + map[string]string{"fixture-signed": "/authenticode/testdata/db.pem", "hello-signed": "/tests/data/signatures/secureboot/keys/db/db.pem"}[str(sc, "variant")])
 					if blk, _ := pem.Decode(pb); blk != nil {
 						if fc, err := x509.ParseCertificate(blk.Bytes); err == nil {
 							c2 = fc
